@@ -16,7 +16,10 @@ ASSUMPTIONS = [
     "as_bytes() and len()",
     "UtpHeader::serialize is modelled by the prefix buffer[..returned offset]; the harness checks with a "
     "poisoned buffer that nothing beyond it is written",
-    "the clause 'every datagram the library emits ...' is a connection-level statement and is not part of this check",
+    "connection-level clause (vsock_wire): one VirtualSocket driven by a scripted peer, application, clock and "
+    "transport; theorem hypothesis c11_config_ok (initial sequence numbers and the remote connection id of the "
+    "configuration are u16 values, as their Rust type says); dispatcher-level clause (disp_wire): random_u16 values and "
+    "the fields of parsed datagrams are u16",
 ]
 RULE = ("wire_de/wire_msg: structural enumeration (all 256 type/version bytes x short chains; valid first bytes x "
         "extension chains over ids {1,2,3,255} x lens {0,1,3,4,5,8,9,36,255} up to depth 3 x every truncation length "
@@ -394,7 +397,27 @@ def gen_around(rng, line, tier):
 
 # no "keep": a case line has no parameter prefix; a line that loses a token is answered BAD-CASE by
 # both sides (so the shrinker never accepts it) and the integers inside the tokens stay shrinkable
+def _vsock_component():
+    # connection level: the M3 model vs the real VirtualSocket on the shared generators; the extracted
+    # c11_emitted_ok (connection id owed to the direction, BEP-29 type, payload iff ST_DATA, in-range header,
+    # 64-bit SACK) and c11_conn_types_ok (a connection emits only ST_DATA / ST_FIN / ST_STATE) are evaluated
+    # on every datagram of every implementation trace
+    from . import vsock_common
+    c = vsock_common.component("c11_emitted_ok+c11_conn_types_ok", name="vsock_wire")
+    c["corpus"] = ["vsock"]
+    return c
+
+
+def _disp_component():
+    # dispatcher level: every datagram the real dispatcher sent parses (real parser, in the harness) as the
+    # ST_SYN / ST_RESET the model emits, and the extracted c11_dstep_ok holds of it
+    from . import disp_common
+    return disp_common.component("c11", name="disp_wire")
+
+
 COMPONENTS = [
     {"name": "wire", "gen": gen, "gen_around": gen_around, "nontrivial": nontrivial,
      "classify": classify, "pred": pred},
+    _vsock_component(),
+    _disp_component(),
 ]
